@@ -87,6 +87,9 @@ func GenOp(t *rapid.T, r *Runner, alphabet []proto.Message, readsToo bool) Op {
 		switch op.Kind {
 		case OpGet, OpList:
 			op.ReadMask, _ = lib.DrawMask(t, "readMask", md, alphabet...)
+			if op.Kind == OpList && rapid.IntRange(0, 2).Draw(t, "listInclude") == 0 {
+				op.Include = rapid.SampledFrom([]string{"id<b", "counter-odd", "has-derived"}).Draw(t, "include")
+			}
 			return op
 		}
 	}
